@@ -76,6 +76,7 @@ func runVariant(p *propDef, repo, verif, path string, known []KnownFinding) int 
 	}
 	w := load(loadOpts{repo: repo, overlay: overlay})
 	r := newReport(p.id, p.level)
+	setInlinePolicy(w)
 	p.run(w, r, "quick")
 	// apply floors + known findings without writing anything
 	code := r.finish(finishOpts{verifDir: verif, known: known, noWrite: true})
@@ -133,6 +134,7 @@ func thorough(p *propDef, repo, verif string, known []KnownFinding) (int, map[st
 	for _, c := range []cfgT{{"default", nil, false}, {"GOARCH=386", []string{"GOARCH=386"}, false}, {"GOOS=windows", []string{"GOOS=windows"}, false}, {"tests-loaded", nil, true}} {
 		w := load(loadOpts{repo: repo, env: c.env, tests: c.tests})
 		r := newReport(p.id, p.level)
+		setInlinePolicy(w)
 		p.run(w, r, "quick")
 		var sig []string
 		for _, ob := range r.Obls {
